@@ -1,6 +1,7 @@
 import astload
 import eigencw
 import hooks as nvhooks
+import rss_smt
 from core import Fn, Target, VC
 
 DRV = 'drivers/inst_wlearner.cpp'
@@ -686,7 +687,7 @@ def build(tier):
     t = try_merge_fns()
     targets.append(Target('affine_try_merge', [t['affine'], t['helper'], t['feature']], MH))
     return {
-        'targets': targets, 'vcs': hinge_lemmas() + accumulator_lemmas()[0], 'bounded': accumulator_lemmas()[1],
+        'targets': targets, 'vcs': hinge_lemmas() + accumulator_lemmas()[0] + rss_smt.build_vcs(), 'bounded': accumulator_lemmas()[1],
         'decided': [
             'loop_scalar / loop_sclass / loop_mclass: op(i, value) is called only for 0 <= i < samples.size(), in increasing i, only for given values (finite / >= 0 / first label >= 0), with the value of sample i, and for every given value exactly once (ghost sample position); the enclosing functions hand the given samples and feature to select_iterator_t::loop once, with the callback overload of the right value kind',
             'stump: do_predict adds tables[value < threshold ? 0 : 1] to outputs row i exactly once for a given value and nothing for a missing one; split / do_split assign group (value < threshold ? 0 : 1) to samples(i) under the same rule with the same feature and the member threshold; cluster has dataset.samples() x 2',
